@@ -188,6 +188,18 @@ Hi(v) == IF v < 0 THEN <<45>> \o Group3(NatDigits(0 - v)) ELSE Group3(NatDigits(
 \* the chosen formatter: "hi" = termformat.Default, "raw" = termformat.Passthru
 Fmt(f, v) == IF f = "raw" THEN Itoa(v) ELSE Hi(v)
 
+\* termformat.FromExpression: a formatter is a function of (value, min, max) - the value and the bounds of what the
+\* renderer is drawing at that moment.  A template is a sequence of parts: <<-1>> the value ({0}, {val}), <<-2>> the
+\* lower bound ({1}, {min}), <<-3>> the upper bound ({2}, {max}), any other part literal text.  The text is a function
+\* of the three arguments of THIS call: nothing an earlier call produced may show through.
+PartVal == <<-1>>   PartMin == <<-2>>   PartMax == <<-3>>
+FmtPart(p, v, mn, mx) == IF p = PartVal THEN Itoa(v) ELSE IF p = PartMin THEN Itoa(mn) ELSE IF p = PartMax THEN Itoa(mx) ELSE p
+FmtTpl(tpl, v, mn, mx) == Flatten([i \in 1..Len(tpl) |-> FmtPart(tpl[i], v, mn, mx)])
+\* f: "hi" | "raw" | "tpl"
+FmtC(f, tpl, v, mn, mx) == IF f = "tpl" THEN FmtTpl(tpl, v, mn, mx) ELSE Fmt(f, v)
+TplReadsBounds(tpl) == \E i \in 1..Len(tpl) : tpl[i] \in {PartMin, PartMax}
+PadR(s, n) == s \o Rep(32, n - Len(s))                        \* fmt %-*s: padded by runes, never cut
+
 \* scanning
 RECURSIVE SkipSp(_, _)
 SkipSp(s, i) == IF i <= Len(s) /\ s[i] = 32 THEN SkipSp(s, i + 1) ELSE i          \* first index >= i that is not a space
@@ -215,6 +227,14 @@ TableWidths(rowsOfCells, ncols, w0) ==
 TableLine(cells, w) ==
   Flatten([i \in 1..Min2(Len(cells), Len(w)) |-> cells[i] \o Rep(32, w[i] - Len(cells[i]) + 1)])
 ColStart(w, i) == SeqSum([j \in 1..(i - 1) |-> w[j] + 1])
+
+\* the buffered terminal (multiterm.VirtualTerm) as its reader sees it: a sequence of lines addressed from 0; writing
+\* line i makes lines 0..i exist (the ones never written are empty) and changes no other line; nothing is ever removed
+VWrite(lines, i, t) ==
+  [j \in 1..Max2(Len(lines), i + 1) |-> IF j = i + 1 THEN t ELSE IF j <= Len(lines) THEN lines[j] ELSE <<>>]
+VGet(lines, i) == IF i >= 0 /\ i + 1 <= Len(lines) THEN lines[i + 1] ELSE <<>>
+RECURSIVE VWrites(_, _)                                         \* ws: sequence of <<line, text>>, applied in order
+VWrites(lines, ws) == IF ws = <<>> THEN lines ELSE VWrites(VWrite(lines, ws[1][1], ws[1][2]), Tail(ws))
 
 \* ------------------------------------------------- 6. layout state machines
 \* Heatmap.WriteHeader, written like the code: the cursor i walks the displayed columns; names are
